@@ -309,13 +309,14 @@ class C15(Prop):
         if kind == 'distinct':
             return {'op': 'distinct'}
         if kind == 'sample':
-            return {'op': 'sample', 'fraction': rng.choice([0.0, 0.3, 0.5, 0.8, 1.0]), 'seed': rng.choice([None, rng.randint(0, 50)])}
+            return {'op': 'sample', 'fraction': rng.choice([0.0, 0.3, 0.5, 0.8, 1.0]), 'seed': rng.choice([None, rng.randint(0, 50)]),
+                    'spell': rng.choice(['full', 'full', 'frac', 'kw'])}
         return {'op': 'repartition', 'n': rng.randint(1, 3)}
 
     def gen(self, rng, tier):
         if rng.random() < .1:
             start, step = rng.randint(-3, 3), rng.choice([1, 1, 2, 3])
-            stop = start + rng.randint(1, 7)      # an empty range() raises (schema inferred from the data): no DataFrame obtained
+            stop = start + rng.randint(-2, 7)     # empty ranges included (stop <= start): an empty frame with the column id
             src = {'range': [start, stop, step], 'parts': rng.randint(1, 3)}
             tr = Tracker(['id'], ['int'], max(0, stop - start))
         else:
@@ -357,13 +358,19 @@ class C15(Prop):
             short[rng.randrange(len(rows))] = 1
             if all(short):
                 short[0] = 0
-            return dict(src, via='ragged', short=short, parts=1, withnames=rng.random() < .5, asrdd=rng.random() < .4)
+            recs = rng.choice(['tuples', 'tuples', 'rowclass', 'rows'])
+            if recs != 'tuples' and rng.random() < .4:
+                short[rng.randrange(len(rows))] = -1           # one record with a value MORE than the others (and field names of its own)
+            return dict(src, via='ragged', short=short, parts=1, withnames=rng.random() < .5, asrdd=rng.random() < .4, records=recs)
         if via == 'names':
             if any(all(r[j] is None for r in rows) for j in range(len(names))):
                 return src                      # a column without any value: its type cannot be inferred (no frame is obtained)
             # tuples with a list of column names - or records that carry field names of their own (Row objects), which the list
             # of names replaces position by position
-            return dict(src, via='names', records=rng.choice(['tuples', 'tuples', 'rows']), parts=1)
+            recs = rng.choice(['tuples', 'tuples', 'rows', 'rows-perm'])
+            if recs == 'rows-perm' and (len(names) < 2 or len(set(names)) != len(names) or not all(n.isidentifier() for n in names)):
+                recs = 'rows'
+            return dict(src, via='names', records=recs, parts=1)
         if via == 'rows' and rng.random() < .4:
             return dict(src, via='rows', explicit=True, parts=1)
         absent = [[j for j, v in enumerate(r) if v is None and via == 'hetero' and rng.random() < .7] for r in rows]
@@ -453,9 +460,22 @@ class C15(Prop):
                 from pysparkling.sql.types import Row
                 own = ['f%02d' % j for j in range(len(t['names']))]      # (sorted order = positional order)
                 return self.spark.createDataFrame([Row(**dict(zip(own, r))) for r in rows], list(t['names']))
+            if t.get('records') == 'rows-perm':
+                # keyword-built Rows (which hold their values in the sorted order of the names) and the list of the same names in
+                # the order the columns are wanted in: every value must arrive under its own name, typed as that column
+                from pysparkling.sql.types import Row
+                return self.spark.createDataFrame([Row(**dict(zip(t['names'], r))) for r in rows], list(t['names']))
             return self.spark.createDataFrame([tuple(r) for r in rows], list(t['names']))
         if t.get('via') == 'ragged':
-            data = [tuple(r[:len(r) - k]) for r, k in zip(rows, t['short'])]
+            data = [tuple(r[:len(r) - k]) if k >= 0 else tuple(r) + (7,) for r, k in zip(rows, t['short'])]
+            if t.get('records') in ('rowclass', 'rows'):
+                from pysparkling.sql.types import Row
+                # records that are Row objects: of a Row class with the table's field names (fewer values are legal there), with
+                # other field names when wider; or Rows built from positional values only
+                named = t['records'] == 'rowclass'
+                P = Row(*t['names'])
+                W = Row(*(['x%d' % j for j in range(len(t['names']) + 1)]))
+                data = [(W(*d) if len(d) > len(t['names']) else P(*d)) if named else Row(*d) for d in data]
             if t.get('asrdd'):
                 data = self.sc.parallelize(data, 1)
             return self.spark.createDataFrame(data, list(t['names'])) if t.get('withnames') else self.spark.createDataFrame(data)
@@ -549,8 +569,17 @@ class C15(Prop):
         if k == 'distinct':
             return df.distinct()
         if k == 'sample':
+            sp = op.get('spell', 'full')       # the documented spellings: sample(withReplacement, fraction, seed), sample(fraction[, seed]), keywords
             if op.get('seed') is None:
+                if sp == 'frac':
+                    return df.sample(float(op['fraction']))
+                if sp == 'kw':
+                    return df.sample(fraction=float(op['fraction']))
                 return df.sample(False, float(op['fraction']))       # unseeded: the frame must still be ONE sample
+            if sp == 'frac':
+                return df.sample(float(op['fraction']), op['seed'])
+            if sp == 'kw':
+                return df.sample(fraction=float(op['fraction']), seed=op['seed'])
             return df.sample(False, float(op['fraction']), op['seed'])
         if k == 'repartition':
             return df.repartition(op['n'])
@@ -602,6 +631,18 @@ class C15(Prop):
                                 r, 'C15:model:fromRows', relation='model-only')
         elif src.get('via'):
             ctx.note('source:' + src['via'] + (':' + src['records'] if src.get('records') else ''))
+            if src.get('records') == 'rows-perm':
+                if prev['columns'] != list(src['names']) or rows_key(prev['rows']) != rows_key(src['rows']):
+                    return Mismatch('createDataFrame(keyword-built Rows, list of the same names in another order): every value belongs '
+                                    'under its own name', {'columns': prev['columns'], 'rows': prev['rows']},
+                                    {'columns': src['names'], 'rows': src['rows']}, 'C15:source:rows-perm', relation='spec')
+                try:      # the inferred schema must describe the rows it was inferred from
+                    again = self.spark.createDataFrame(df.collect(), df.schema).collect()
+                    if [list(r) for r in again] != [list(r) for r in df.collect()]:
+                        raise ValueError('rows differ')
+                except Exception as e:  # pylint: disable=broad-except
+                    return Mismatch('the schema of a frame created from Rows and a list of names does not accept the frame\'s own rows',
+                                    exc(e), None, 'C15:source:rows-perm:schema', relation='spec')
         def max_col(a):
             if isinstance(a, dict):
                 own = [a['i']] if a.get('op') == 'col' and isinstance(a.get('i'), int) else []
